@@ -17,7 +17,22 @@ use serde::{Deserialize, Serialize};
 
 #[derive(Serialize, Deserialize, Clone, Debug, Hash, PartialEq, Eq)]
 pub enum Scenario {
-    Encode { front: Front, seek: Seek, declare: bool, channels: u8, bps: u8, frames: u32, bs: u16, padding: Option<u32> },
+    Encode {
+        front: Front,
+        seek: Seek,
+        declare: bool,
+        channels: u8,
+        bps: u8,
+        frames: u32,
+        bs: u16,
+        padding: Option<u32>,
+        /// junk bytes before the stream; the writer is positioned behind them
+        #[serde(default)]
+        prefix: u16,
+        /// hand the whole input to the writer in one call instead of 37-unit pieces
+        #[serde(default)]
+        one_call: bool,
+    },
     StreamWrite { nframes: u8 },
     WriteBlocks { spec: VSpec },
     /// update_file with faults in the original (write/seek/flush, and reads when `read_faults`)
@@ -78,16 +93,18 @@ pub struct RunResult {
 pub fn run_scenario(c: &FaultCase) -> RunResult {
     let mk = |init: RecWriter| SharedFaulty::new(FaultyWriter::new(init, c.fail_at.map(|n| n as u64), c.kind, c.short.map(|k| k as usize)));
     match &c.scenario {
-        Scenario::Encode { front, seek, declare, channels, bps, frames, bs, padding } => {
+        Scenario::Encode { front, seek, declare, channels, bps, frames, bs, padding, prefix, one_call } => {
             let pcm = test_pcm(*channels, *bps, *frames);
             let mut o = EncOpts::small(*bs);
             o.seek = seek.clone();
             o.declare_total = *declare;
             o.padding = *padding;
             o.max_lpc = Some(4);
-            let w = mk(RecWriter::new());
+            let junk: Vec<u8> = (0..*prefix).map(|i| (i as u8).wrapping_mul(29) ^ 0x3C).collect();
+            let w = mk(RecWriter::with_prefix(&junk));
             let total = if *declare { Some(codec::declared_total(&pcm, *front)) } else { None };
-            let r = codec::encode_into(w.clone(), &pcm, &o, *front, &[37], total, &[]);
+            let chunks: &[usize] = if *one_call { &[] } else { &[37] };
+            let r = codec::encode_into(w.clone(), &pcm, &o, *front, chunks, total, &[]);
             RunResult {
                 result: r.map(|()| "encoded".to_string()).map_err(|e| format!("{}: {}", e.stage(), e.text())),
                 bytes: w.data(),
@@ -410,6 +427,8 @@ pub fn scenarios(tier: Tier, seed: u64) -> Vec<Scenario> {
                 frames: 70 + (seed % 7) as u32 + k as u32,
                 bs: 32,
                 padding,
+                prefix: if k % 4 == 1 { 173 } else { 0 },
+                one_call: k % 3 == 2,
             });
         }
     }
@@ -424,6 +443,8 @@ pub fn scenarios(tier: Tier, seed: u64) -> Vec<Scenario> {
             frames: 66 + (seed % 5) as u32 + i as u32,
             bs: 32,
             padding: if i % 2 == 0 { Some(40) } else { None },
+            prefix: if i == 3 { 57 } else { 0 },
+            one_call: i % 2 == 1,
         });
     }
     v.push(Scenario::StreamWrite { nframes: 3 });
